@@ -113,7 +113,7 @@ def _norm_atom(a):
     if a.startswith("raises(") and "->" in a:
         # `raises(<statement text> -> Exc)`: the statement is source text (local names): keep what it calls and the exception
         body, exc = a[len("raises("):].rsplit("->", 1)
-        a = "raises(" + ",".join(re.findall(r"[\w.]+(?=\()", body)) + " -> " + exc.strip()
+        a = "raises(" + ",".join(c for c in re.findall(r"[\w.]+(?=\()", body) if c.startswith("self.")) + " -> " + exc.strip()
     for pat, rep in _canon_forms:
         a = re.sub(pat, rep, a)
     a = re.sub(r"@\d+", "", a)
@@ -226,6 +226,50 @@ def _filters(fn):
     return out
 
 
+def _elem_conditions(fn):
+    """conditions under which the function keeps an element of something it iterates, however written:
+    comprehension `if`, filter(None|lambda), `for x in it: if c: ...` / `if not c: continue`.
+    Returned as a set of (polarity, condition text with the element variable written `_`)."""
+    import copy
+
+    from .decision import _Rename
+
+    def norm(test, names):
+        pol = True
+        while isinstance(test, ast.UnaryOp) and isinstance(test.op, ast.Not):
+            pol = not pol
+            test = test.operand
+        t = _Rename({n: "_" for n in names}).visit(copy.deepcopy(test))
+        return (pol, u(t))
+
+    out = set()
+    for n in ast.walk(fn):
+        if isinstance(n, (ast.ListComp, ast.SetComp, ast.GeneratorExp, ast.DictComp)):
+            for g in n.generators:
+                names = {x.id for x in ast.walk(g.target) if isinstance(x, ast.Name)}
+                for c in g.ifs:
+                    out.add(norm(c, names))
+        elif isinstance(n, ast.Call) and u(n.func) == "filter" and len(n.args) == 2:
+            if isinstance(n.args[0], ast.Constant) and n.args[0].value is None:
+                out.add((True, "_"))
+            elif isinstance(n.args[0], ast.Lambda) and len(n.args[0].args.args) == 1:
+                out.add(norm(n.args[0].body, {n.args[0].args.args[0].arg}))
+        elif isinstance(n, ast.For):
+            names = {x.id for x in ast.walk(n.target) if isinstance(x, ast.Name)}
+            for st in n.body:
+                if isinstance(st, ast.If) and not st.orelse and any(isinstance(x, ast.Name) and x.id in names for x in ast.walk(st.test)):
+                    pol, t = norm(st.test, names)
+                    skips = len(st.body) == 1 and isinstance(st.body[0], ast.Continue)
+                    out.add((pol != skips, t))
+                    if not skips:
+                        break
+                elif isinstance(st, ast.Expr) and isinstance(st.value, ast.Constant):
+                    continue
+                else:
+                    break
+    return out
+
+
 def new_skip_conditions(repo, short, qualname):
     """-> list of (kind, text, ast-or-None, explanation) for function short:qualname;
     [] when the function is new, unanalysable, or has no new work-skipping condition."""
@@ -249,6 +293,8 @@ def new_skip_conditions(repo, short, qualname):
             if k not in rf:
                 if isinstance(node, ast.Call) and u(node.func) == "isinstance" and len(node.args) == 2 and u(node.args[1]) in _isinstance_classes(ref_f.node):
                     continue
+                if _elem_conditions(cur_f.node) <= _elem_conditions(ref_f.node):
+                    continue  # the reviewed version keeps elements under the same condition(s), written differently
                 findings.append(("filter", k, node, f"a comprehension now drops the elements of `{k.split(' if ')[0]}` for which `{u(node)}` is false"))
     # --- decision tables
     ct = table(cur_f)
@@ -360,7 +406,9 @@ def _eff_key(e):
     if e[0] == "call":
         t = _skel(_norm_atom(e[1])) if isinstance(e[1], str) else ""
         if not t.startswith("self.") and "." in t:
-            t = "*." + t.rsplit(".", 1)[1]  # receiver denoted by an expression: only the operation is compared
+            recv, op = t.rsplit(".", 1)
+            # receiver denoted by an expression: only the operation is compared; a bare local name is a local accumulator
+            t = ("<local>." if re.fullmatch(r"\w+", recv) else "*.") + op
         consts = []
         for x in _bound_call(e)[2:]:
             k = None
@@ -467,6 +515,7 @@ def compare_tables(ct, rt):
                 return findings
     # case-by-case refinement
     cur_norm = [(_norm_atoms(p.atoms), p) for p in ct]
+    cur_builds_locally = any(k[0] == "call" and str(k[1]).startswith("<local>.") for p in ct for k in (_eff_key(e) for e in _relevant(p.effects)))
     reported = set()
     for pr in rt:
         ra = _norm_atoms(pr.atoms)
@@ -474,6 +523,10 @@ def compare_tables(ct, rt):
         if not cands:
             continue
         want = [_eff_key(e) for e in _relevant(pr.effects)]
+        if not cur_builds_locally:
+            # the function no longer builds a local list/dict/set step by step (loop -> comprehension, join, ...):
+            # what the reviewed version appended to its local accumulator is not an observable effect
+            want = [w for w in want if not (w[0] == "call" and str(w[1]).startswith("<local>."))]
         wres = _res_key(pr)
         best = None
         for pc in cands:
